@@ -18,6 +18,7 @@ import json
 import os
 import shutil
 import subprocess
+import tempfile
 import threading
 
 from harness.common import extract
@@ -35,15 +36,16 @@ TRUSTED = [
     "C04 harness: thread ids are emulated as directories of the fake root that the wrapped os.listdir hides; the wrapped os.kill converts its argument with the real pid_t converter (os.getsid) before consulting the simulated table",
 ]
 MANIFEST = {
-    "level_text": "Machine-checked Lean 4 proofs over a model of pids()/pid_exists()/process_iter()/cache_clear()/is_running()'s cache side effect: pids() is the strictly ascending list of exactly the listed PIDs for every table (C04_pids_sorted_exact, with the byte-level listing theorem C04_listing_exact); pid_exists(n) is True exactly for listed PIDs and never raises, for every int n and every well-formed table with threads, foreign processes and unreadable status files (C04_pidExists_iff); for EVERY history, including overlapping generators, each generator yields strictly ascending PIDs that were in the listing it took and next() raises nothing but StopIteration/ValueError(invalid attrs)/IndexError(empty table) (C04_overlap_safety, C04_iter_ascending); the prologue visits exactly the listed PIDs (C04_iter_each_listed_once) and a visit skips a PID only if it vanished (C04_iter_skips_vanished); for every sequential history the model produces exactly the outputs of a shared-cache specification machine (C04_refines_sequential), from which identity stability, replacement of flagged entries, cache_clear and the info keys follow (C04_identity_stable_sequential, C04_reused_replaced, C04_cache_clear, C04_info_keys). Counterexamples are proved for the pre-fix code (L4 OverflowError, L19 skipped PID) and for the recorded findings (overlapping generators, cache_clear while suspended, ppid reuse check). Tied to the code by translator facts feeding cfg_good and by a differential run of the real functions over a fake procfs.",
-    "level_note": "Trusted: Lean kernel + {propext, Classical.choice, Quot.sound}; the translator; the correspondence harness; atomicity (table changes between psutil's OS accesses); CPython generator finalisation and set iteration order; as_dict modelled by attribute kind.",
+    "level_text": "Machine-checked Lean 4 proofs over a model of pids()/pid_exists()/process_iter()/cache_clear()/is_running()'s cache side effect. For every table: pids() is the strictly ascending list of exactly the listed PIDs (C04_pids_sorted_exact, C04_pids_unique; byte level: C04_listing_exact); pid_exists(n) is a bool, True exactly for listed PIDs, for every int n and every well-formed table with threads, foreign processes and broken status files (C04_pidExists_iff). For EVERY history, overlapping generators and both prologue orders included: each generator yields strictly ascending PIDs without duplicates, all from the listing it took, and next() can only yield/stop/raise ValueError (invalid attrs)/IndexError (empty table) (C04_iter_ascending, C04_overlap_safety, C04_yield_was_listed); each next() visits the remaining listed PIDs in order and skips a PID only if it vanished (C04_iter_each_listed_once at full strength for the repaired prologue order, C04_iter_each_listed_once_partial for the current code when no PID is flagged at the start of the iteration); info keys are exactly the requested names (C04_info_keys). For every SEQUENTIAL history the whole output trace of the model — PIDs, object identities, info keys — equals that of a shared-cache specification machine (C04_refines_sequential, by an abstraction function), whose cache keeps an entry iff its PID is still listed and not flagged, yields the cached object else a fresh one, and is emptied by cache_clear (C04_start_cache, C04_spec_visit, C04_isRunning_flags, C04_cache_clear). Proved counterexamples (replayed on the real code): L4 OverflowError for the pre-fix pid_exists, L19 flagged PID skipped, overlapping generators, cache_clear while suspended, ppid reuse check (the last four are known findings). Tied to the code by translator facts (range guard, prologue order, valid/access-free/reuse-checking attr names) feeding cfg_good and the model the driver runs, and by a differential run of the real functions over a fake procfs incl. exhaustive short histories and the complete pid_exists table.",
+    "level_note": "Partial: identity is proved for sequential histories only (overlaps, cache_clear while suspended, ppid+recycled PID, flagged PID at iteration start are known findings with proved counterexamples); completeness is stated per next(). Trusted: Lean kernel + {propext, Classical.choice, Quot.sound}; the translator; the correspondence harness; atomicity (table changes between psutil's OS accesses and right after the listing); CPython generator finalisation and set iteration order; as_dict modelled by attribute kind.",
     "technique": "Lean 4 generator state machine + refinement to a shared-cache specification by an abstraction function, invariants by induction over histories, translator-fed proof obligation, differential correspondence over a fake procfs with exhaustive short histories",
     "design_ref": "DESIGN.md §5 C04",
 }
 ASSUMPTIONS = [
     "process table is well formed: one entry per PID, thread ids distinct from PIDs, every id fits pid_t; entries of the procfs root that are not PIDs are not all-digit names",
     "a PID recycled within one clock tick (same start time) is indistinguishable from the old process (psutil's documented assumption)",
-    "the identity statements are proved for sequential histories (at most one suspended generator, cache_clear() only while none is suspended, no attrs name that starts with _raise_if_pid_reused); outside that region see the known findings",
+    "the identity statements are proved for sequential histories (at most one suspended generator, cache_clear() only while none is suspended, no attrs name that starts with _raise_if_pid_reused, no PID flagged by is_running() at the moment an iteration starts — the last one only for the current prologue order); outside that region see the known findings",
+    "the process table is never empty when psutil lists it (the calling process exists); on an empty table pids()/pid_exists(0)/process_iter() raise IndexError (modelled, no promise in the spec)",
 ]
 
 PID_T_MAX = 2**31 - 1
@@ -264,6 +266,7 @@ class Impl:
         os.listdir = self._listdir
         os.kill = self._kill
         self.fp.write("stat", b"cpu  0 0 0 0 0 0 0 0 0 0\nbtime 1000000\n")
+        self.stage = tempfile.mkdtemp(prefix="psv-c04-stage-", dir=os.path.dirname(self.root))
         self.gens = []
         self.yielded = {}        # step index -> object
         self.keep = []           # keep every yielded object alive (ids must not be recycled)
@@ -279,6 +282,7 @@ class Impl:
             except Exception:
                 pass
         self.fp.close()
+        shutil.rmtree(self.stage, ignore_errors=True)
         reset_psutil_state(self.ps)
 
     # ---- patched OS entry points
@@ -313,23 +317,42 @@ class Impl:
             raise PermissionError(1, "Operation not permitted")
 
     # ---- world
+    def _install(self, name, files):
+        """make /proc/<name> appear atomically with all its files (a real procfs never shows a
+        half-written record; matters for the two-thread runs)"""
+        self._serial = getattr(self, "_serial", 0) + 1
+        stage = os.path.join(self.stage, "n%d" % self._serial)
+        os.makedirs(stage)
+        for fn, data in files.items():
+            with open(os.path.join(stage, fn), "wb") as f:
+                f.write(data)
+        dst = self.fp.path(name)
+        if os.path.lexists(dst):
+            self._uninstall(name)
+        os.rename(stage, dst)
+
+    def _uninstall(self, name):
+        src = self.fp.path(name)
+        if os.path.lexists(src):
+            self._serial = getattr(self, "_serial", 0) + 1
+            trash = os.path.join(self.stage, "t%d" % self._serial)
+            os.rename(src, trash)
+            shutil.rmtree(trash, ignore_errors=True)
+
     def kev(self, ev):
         for act, x in self.k.apply(ev):
             if act == "mkproc":
-                d = str(x["pid"])
-                self.fp.write(d + "/stat", stat_bytes(x["pid"], x["start"], "Z" if x["zombie"] else "S"))
+                files = {"stat": stat_bytes(x["pid"], x["start"], "Z" if x["zombie"] else "S")}
                 if x["status"] == "ok":
-                    self.fp.write(d + "/status", status_bytes(x["pid"], x["pid"]))
+                    files["status"] = status_bytes(x["pid"], x["pid"])
                 elif x["status"] == "notgid":
-                    self.fp.write(d + "/status", status_bytes(x["pid"], x["pid"], with_tgid=False))
-                else:
-                    self.fp.remove(d + "/status")
+                    files["status"] = status_bytes(x["pid"], x["pid"], with_tgid=False)
+                self._install(str(x["pid"]), files)
             elif act == "mkthr":
-                d = str(x["tid"])
-                self.fp.write(d + "/stat", stat_bytes(x["tid"], x["start"], "S"))
-                self.fp.write(d + "/status", status_bytes(x["tid"], x["tgid"]))
+                self._install(str(x["tid"]), {"stat": stat_bytes(x["tid"], x["start"], "S"),
+                                              "status": status_bytes(x["tid"], x["tgid"])})
             elif act == "rm":
-                self.fp.remove(str(x))
+                self._uninstall(str(x))
 
     def reset(self):
         for g in self.gens:
@@ -344,9 +367,9 @@ class Impl:
         self.step = 0
         self.pending_mid = None
         for p in list(self.k.procs):
-            self.fp.remove(str(p["pid"]))
+            self._uninstall(str(p["pid"]))
         for t in list(self.k.thrs):
-            self.fp.remove(str(t["tid"]))
+            self._uninstall(str(t["tid"]))
         self.k = SimKernel()
         reset_psutil_state(self.ps)
         self.linux.BOOT_TIME = 1000000.0
